@@ -877,7 +877,8 @@ def d4_sign(ctx):
         for d in [d for d in du.defs if d.var == imp and d.kind == "assign" and isinstance(d.value, ast.Call) and call_name(d.value) == "zeros"]:
             sn = loc_name(d.value.args[0]) if d.value.args else None
             shp = [n for n in walk_function(fi.node) if isinstance(n, ast.Assign) and isinstance(n.targets[0], ast.Subscript) and loc_name(n.targets[0].value) == sn
-                   and loc_name(n.targets[0].slice) == "axis" and loc_name(n.value) == "ns"]
+                   and loc_name(n.targets[0].slice) == "axis" and (loc_name(n.value) == "ns" or (isinstance(n.value, ast.BoolOp) and isinstance(n.value.op, ast.Or)
+                                                                                                        and loc_name(n.value.values[0]) == "ns" and "shape[axis]" in src(n.value.values[1])))]
             okshape = bool(shp) and any(du.cfg.must_pass([du.cfg.node_for(x)], d.node) for x in shp)
     ctx.check(okshape, fi, shp[0] if shp else fi.node, shp[0] if shp else "shape[axis] = ns",
               "impulse vector has ns samples along the shift axis and 1 elsewhere", "impulse vector is not ns long along the shift axis", key="impulse-shape", name_free=True)
